@@ -172,7 +172,7 @@ inline const std::vector<std::string>& allFeatures() {
         "name", "counts", "strval", "axes", "revaxes", "pos", "key", "keyids", "id", "num-single", "num-multi", "num-any", "num-nocount",
         "fmtnum", "fmtnum-df", "arith", "strfn", "copyof", "copy", "rtf", "nodeset", "calltmpl", "choose", "elemattr", "attrset",
         "lre", "message", "modes", "sort2", "comment-pi", "exslt-set", "exslt-math", "exslt-str", "genid", "lang", "sysprop", "param", "ifbool",
-        "union", "preds", "valnum", "apply-imports", "text-nodes", "ns-axis", "doctype-node", "attr-nodes", "number-value", "bigfmt", "xalan-ext", "docfn", "avt-ns", "extfn", "paramuse", "gate", "num-gate", "sortlang", "num-value", "lazyvar", "manyrtf", "deeprec", "padsupp"
+        "union", "preds", "valnum", "apply-imports", "text-nodes", "ns-axis", "doctype-node", "attr-nodes", "number-value", "bigfmt", "xalan-ext", "docfn", "avt-ns", "extfn", "paramuse", "gate", "num-gate", "sortlang", "num-value", "lazyvar", "manyrtf", "deeprec", "padsupp", "top-nodes", "doe"
     };
     return f;
 }
@@ -265,6 +265,9 @@ struct SSGen {
             rootBody += "<pad>" + filler + (four ? "\xF0\x9F\x98\x80" : "\xE2\x82\xAC") + "tail" + (four ? "\xF0\x9D\x84\x9E" : "\xE4\xB8\xAD") + "</pad>";
         }
         // ---- root-level observations ----
+        if (on("top-nodes")) rootBody += "<o f=\"top-nodes\" n=\"/\">" + vo("count(/comment())") + "," + vo("count(/processing-instruction())") + "," + vo("count(/*)") + ",[" + vo("/comment()[1]") + "],[" + vo("name(/processing-instruction()[last()])") + "],<xsl:for-each select=\"/comment() | /processing-instruction() | /*\"><xsl:value-of select=\"concat(name(), ':', count(preceding-sibling::comment()), ' ')\"/></xsl:for-each></o>";
+        // disable-output-escaping on harmless text, directly and through a result tree fragment copied into a CDATA-section element
+        if (on("doe")) rootBody += "<xsl:variable name=\"dv\"><xsl:text disable-output-escaping=\"yes\">rawtext</xsl:text></xsl:variable><o f=\"doe\" n=\"/\"><xsl:value-of select=\"'plain'\" disable-output-escaping=\"yes\"/><cd><xsl:copy-of select=\"$dv\"/></cd><d>1 &lt; 2 &amp; 3 &gt; 0</d><xsl:copy-of select=\"$dv\"/><e a=\"&lt;&amp;\">x &lt; y</e></o>";
         if (on("doctype-node")) rootBody += "<o f=\"doctype-node\" n=\"/\">" + vo("count(/node())") + "," + vo("count(/*)") + "," + vo("count(/comment())") + "," + vo("count(/processing-instruction())") + "</o>";
 
         // ---- abort cause ----
